@@ -64,6 +64,17 @@ Fixpoint pyexpr_eqb (a b : pyexpr) {struct a} : bool :=
              end) l l'
       | _ => false
       end
+  | ESet l =>
+      match b with
+      | ESet l' =>
+          (fix go (l l' : list pyexpr) : bool :=
+             match l, l' with
+             | [], [] => true
+             | x :: r, y :: r' => pyexpr_eqb x y && go r r'
+             | _, _ => false
+             end) l l'
+      | _ => false
+      end
   | EDict kv =>
       match b with
       | EDict kv' =>
@@ -88,6 +99,7 @@ Fixpoint has_garbled (e : pyexpr) {struct e} : bool :=
             match l with [] => false | (_, x) :: r => has_garbled x || gk r end) kws
   | EList l => existsb has_garbled l
   | ETuple l => existsb has_garbled l
+  | ESet l => existsb has_garbled l
   | EDict kv =>
       (fix go (l : list (pyexpr * pyexpr)) : bool :=
          match l with [] => false | (k, x) :: r => has_garbled k || has_garbled x || go r end) kv
@@ -126,7 +138,6 @@ Definition oracle_guarded (c : ccase) : bool :=
       clause of the guard is violated" *)
 Definition explained (W : world) (v : value) (o : obs) (clause : bool) : bool :=
   negb (failed o && negb (roundtrip W v) && negb clause).
-Definition class_array (c : ccase) : bool := let '(W, v, o) := c in explained W v o (g_array W v).
 Definition class_imports (c : ccase) : bool := let '(W, v, o) := c in explained W v o (g_imports W v).
 Definition class_init (c : ccase) : bool := let '(W, v, o) := c in explained W v o (g_init W v).
 Definition class_std (c : ccase) : bool := let '(W, v, o) := c in explained W v o (g_std W v).
